@@ -112,6 +112,63 @@ def explicit_block(ctx, rng):
     ctx.sample(dict(kind="explicit-step", op=lines[0][:240], model=outs[0][:200]))
 
 
+def call_sequence_block(ctx, rng):
+    """the same integrator object driven through __call__ from chained and from unrelated states (as the
+    system does after an event roll-back, a rejected step or a user-driven restart)"""
+    lines, cases = [], []
+    methods = [c for c in I.explicit_methods() if hasattr(c, "tableau_final") and c.tableau_final is not None]
+    for cls in methods:
+        s = np.asarray(cls.tableau_intermediate).shape[0]
+        if s > 20 and ctx.quick():
+            continue
+        for rep in range(2 if ctx.quick() else 10):
+            n = rng.choice([1, 2, 3])
+            rhs = polyrhs.random_poly(rng, n, max_deg=2 if s <= 7 else 1)
+            T = np.float64
+            integ = cls((n,), dtype=T, rtol=1e-1, atol=1e-1)
+            f = DS.DiffRHS(rhs)
+            t = Fr(rng.randint(-8, 8), 8)
+            y = [Fr(rng.randint(-16, 16), 16) for _ in range(n)]
+            plan = ["chain", "jump", "same-start-other-step", "chain"]
+            y_np = np.array([float(v) for v in y], dtype=T)
+            t_np = T(float(t))
+            for kind in plan:
+                h = Fr(rng.choice([1, 2, 3]), rng.choice([16, 32])) * rng.choice([1, -1])
+                if kind == "jump":
+                    t_np = T(rng.randint(-8, 8) / 8.0)
+                    y_np = np.array([rng.randint(-16, 16) / 16.0 for _ in range(n)], dtype=T)
+                try:
+                    new_dt, (dT, dY) = integ(f, t_np, y_np.copy(), {}, T(float(h)))
+                except Exception as e:
+                    break
+                lines.append("rkstep %s %d %s %s %s %s -" % (cls.__name__, n, rhs.proto(), q(Fr(float(t_np))), qlist(frs(y_np)), q(Fr(float(dT)))))
+                cases.append((cls, kind, rhs, float(t_np), [float(v) for v in y_np], float(dT), np.array(dY), s))
+                if kind != "same-start-other-step":
+                    pass
+                if kind in ("chain", "jump"):
+                    keep_t, keep_y = t_np, y_np.copy()
+                    t_np = T(t_np + dT)
+                    y_np = y_np + dY
+                if kind == "jump":
+                    # next: restart from the state before this step with another step size
+                    t_np, y_np = keep_t, keep_y
+    outs = ctx.driver(lines)
+    for (cls, kind, rhs, t, y, dT, dY, s), o in zip(cases, outs):
+        toks = o.split()
+        inp = dict(kind="call-sequence", method=cls.__name__, call=kind, rhs=rhs.proto(), t=t, y=y, accepted_step=dT)
+        if len(toks) != 5:
+            ctx.corr("call-sequence", False, dict(inp, model=o[:200]))
+            continue
+        m_d = [Fr(x) for x in toks[0].split(",")]
+        m_s = [Fr(x) for x in toks[2].split(",")]
+        scale = max([1.0] + [abs(float(v)) for v in m_s] + [abs(v) for v in y]) * s
+        ok = close(dY, m_d, scale * abs(dT), np.float64)
+        ctx.corr("call-sequence", ok, dict(inp, impl=[float(v) for v in dY], model=[float(v) for v in m_d]))
+        ctx.oracle("increment-is-rk-update-through-call", ok, inp,
+                   what="__call__ (%s) returned increment %s, the Runge-Kutta update for the accepted step is %s" % (kind, [float(v) for v in dY], [float(v) for v in m_d]))
+        ctx.count("call:" + kind)
+
+
 def implicit_block(ctx, rng):
     lines, cases = [], []
     reps = 3 if ctx.quick() else 20
@@ -240,6 +297,7 @@ def split_block(ctx, rng):
 
 def run(ctx):
     explicit_block(ctx, ctx.rng)
+    call_sequence_block(ctx, ctx.rng)
     implicit_block(ctx, ctx.rng)
     acceptance_block(ctx, ctx.rng)
     split_block(ctx, ctx.rng)
